@@ -221,7 +221,12 @@ class ProgGen:
         # a new unit whose name looks like prefix symbol + existing unit (a string that used to be
         # read as prefix + unit). Prefix *name* + unit *name* is not generated: that is the canonical
         # name of an implicitly defined unit, i.e. a redefinition (known finding R10, replayed separately).
-        return f"{rng.choice(['K', 'M'])}{base} = {rng.choice(DEC_FACTORS)} * {info.units[0]}"
+        self.used_names = getattr(self, "used_names", set())
+        name = f"{rng.choice(['K', 'M'])}{base}"
+        if (ci, name) in self.used_names:
+            return f"x{n} = {rng.choice(DEC_FACTORS)} * {base}"  # never the same name twice: that would be a redefinition
+        self.used_names.add((ci, name))
+        return f"{name} = {rng.choice(DEC_FACTORS)} * {info.units[0]}"
 
     def step(self, ci):
         rng = self.rng
